@@ -30,7 +30,7 @@ Definition ex_ops : list op := [ExecBlock ex_b1; ExecBlock ex_b2; ExecBlock ex_b
 Definition ex_ops_arb : list op := [ExecBlock ex_b1; ExecBlock ex_b4].
 Definition ex_dump : dump := mkDump 0 0 0 0 0 true true [] 0.
 Definition ex_hist : history :=
-  mkHist false ex_g 1000 ex_dump
+  mkHist false ex_g 1000 ex_dump [(false, false, false)]
     [(ex_b1, Accepted, ex_dump, []); (ex_b2, Accepted, ex_dump, []); (ex_b3, Accepted, ex_dump, []);
      (ex_b4, Accepted, ex_dump, [])].
 
